@@ -579,7 +579,7 @@ def _workdir() -> str:
 
 
 def run_z3(text: str, timeout: float):
-    return _run([Z3, f"-T:{max(1, int(timeout))}", "smt.string_solver=seq"], text, timeout)
+    return _run([Z3, f"-T:{max(1, int(timeout))}", "smt.string_solver=seq", "model_validate=true"], text, timeout)
 
 
 def run_cvc5(text: str, timeout: float, fmf: bool = False):
@@ -607,6 +607,10 @@ def _kill(p):
 
 def _classify(out: str, err: str) -> str:
     first = out.strip().split("\n", 1)[0].strip() if out.strip() else ""
+    # z3 runs with model_validate=true: a "sat" whose model does not satisfy the assertions (seen with the sequence
+    # solver of z3 5.1 on string formulas) is not an answer
+    if first == "sat" and "invalid model" in (out + err):
+        return "unknown"
     if first in ("sat", "unsat", "unknown"):
         return first
     if "timeout" in out or "interrupted" in (out + err).lower():
@@ -623,7 +627,7 @@ def check_unsat(text: str, timeout: float, both: bool = False) -> dict:
         f.write(text)
         path = f.name
     procs = {
-        "z3": _spawn([Z3, f"-T:{max(1, int(timeout))}"], path),
+        "z3": _spawn([Z3, f"-T:{max(1, int(timeout))}", "model_validate=true"], path),
         "cvc5": _spawn([CVC5, "--strings-exp", f"--tlimit={int(timeout * 1000)}"], path),
     }
     answers, outs = {}, {}
